@@ -83,7 +83,7 @@ def saturation_summary(it, a, k):
     sat = A.fresh_array("satflags", "bool", (L,))
     mute = A.fresh_array("mute", "float64", (L,))
     mute.facts_on_read = lambda idx, t: [t >= 0, t <= 1]
-    it.ctx.sat_call = {"data_shape": data.shape, "sat": sat, "mute": mute, "max_voltage": k.get("max_voltage"), "fs": k.get("fs")}
+    it.ctx.sat_call = {"data_shape": data.shape, "data": data.snapshot(), "sat": sat, "mute": mute, "max_voltage": k.get("max_voltage"), "fs": k.get("fs")}
     return sat, mute
 
 
@@ -233,6 +233,12 @@ def run_batch(H, variant, tag):
             z3.Implies(z3.And(t >= first, t < last), y["satfile"].read((t,)) == sc["sat"].read((t - first,))),
             z3.Implies(z3.And(t >= 0, t < ns, z3.Or(t < first, t >= last)), y["satfile"].read((t,)) == satbefore((t,)))))) if sc else z3.BoolVal(False), "post",
             "the saturation file gets this batch's flags at [first_s, last_s) and nothing else", assume=False)
+        if sc and len(sc["data_shape"]) == 2:
+            s2v_ = z3.Real("s2v")
+            it.ctx.oblige(f"sat.sees_the_batch_as_read.{tag}", z3.And(A.T(sc["data_shape"][0]) == ncv, A.T(sc["data_shape"][1]) == last - first,
+                          A.forall([c, t], lambda: z3.Implies(z3.And(c >= 0, c < ncv, t >= 0, t < last - first), sc["data"]((c, t)) == z3.ToReal(raw.read((first + t, c))) * s2v_))), "post",
+                          "the saturation flags of samples [first_s, last_s) are computed on the calibrated traces of those samples as read from the recording (before tapering or filtering): one entry per sample, about that sample",
+                          assume=False)
         if variant.get("compute_rms", True):
             it.ctx.oblige(f"rms.one_row.{tag}", z3.And(z3.BoolVal(len(aid.writes) == 1 and len(tid.writes) == 1), term(aid.positions[0]) == y["rms_offset"] + b * ncv * 4, A.T(aid.writes[0].shape[0]) == ncv,
                                                         term(tid.positions[0]) == y["time_offset"] + b * 4, z3.BoolVal(aid.writes[0].dtype == np.dtype("float32"))) if len(aid.writes) == 1 and len(tid.writes) == 1 else z3.BoolVal(False),
@@ -258,18 +264,24 @@ def run_batch(H, variant, tag):
     S.explore(body)
 
 
-@harness(PROPERTY, "batch_car", functions=["ibldsp.voltage:decompress_destripe_cbin.my_function", "spikeglx:Reader.__getitem__", "spikeglx:Reader.read", "ibldsp.utils:rms"],
+def replay_batch(vals, oid):
+    """native: a 20000-sample recording destriped to disk by 1 and by 3 workers (8192-sample batches), saturated stretches where batches are tapered"""
+    bad = native_destripe(np.random.default_rng(7), 20000, 8192, (1, 3), False)
+    return {"failed": bool(bad), "cases": [repr(b)[:200] for b in bad[:4]]}
+
+
+@harness(PROPERTY, "batch_car", replay=replay_batch, functions=["ibldsp.voltage:decompress_destripe_cbin.my_function", "spikeglx:Reader.__getitem__", "spikeglx:Reader.read", "ibldsp.utils:rms"],
          clause="every sample at its own position; sync copied bit for bit; saturation / RMS entries per sample / per batch (no channel rejection, no whitening)")
 def h_batch(H):
     run_batch(H, {"reject": False, "wrot": False}, "plain")
 
 
-@harness(PROPERTY, "batch_reject_whiten", functions=["ibldsp.voltage:decompress_destripe_cbin.my_function"], clause="same with channel rejection and whitening")
+@harness(PROPERTY, "batch_reject_whiten", replay=replay_batch, functions=["ibldsp.voltage:decompress_destripe_cbin.my_function"], clause="same with channel rejection and whitening")
 def h_batch2(H):
     run_batch(H, {"reject": True, "wrot": True}, "reject_wrot")
 
 
-@harness(PROPERTY, "batch_norms", functions=["ibldsp.voltage:decompress_destripe_cbin.my_function"], clause="same without the RMS quality files")
+@harness(PROPERTY, "batch_norms", replay=replay_batch, functions=["ibldsp.voltage:decompress_destripe_cbin.my_function"], clause="same without the RMS quality files")
 def h_batch3(H):
     run_batch(H, {"reject": False, "wrot": False, "compute_rms": False}, "norms")
 
@@ -308,13 +320,19 @@ def h_lemmas(H):
 FIXM = os.path.join(os.path.dirname(spikeglx.__file__), "tests", "fixtures", "sample3B_g0_t0.imec1.ap.meta")
 
 
-def _mk_rec(d, ns, rng, saturate=True):
+def _mk_rec(d, ns, rng, saturate=True, nbatch=None):
     nc = 385
     ap = os.path.join(d, "rec.imec1.ap.bin")
     x = (rng.standard_normal((ns, nc)) * 30).astype(np.int16)
     if saturate:
         s0 = int(ns * 0.4)
         x[s0:s0 + 50, :300] = 32000
+        # saturated stretches where a batch is tapered: the first samples of the recording, just after the start of the second batch, the last samples
+        x[3:40, :200] = -32000
+        x[ns - 30:ns - 2, 100:350] = 32000
+        if nbatch and ns > nbatch:
+            b1 = nbatch - 2048
+            x[b1 + 5:b1 + 90, :250] = 32000
     x[:, -1] = rng.integers(0, 2 ** 15, ns).astype(np.int16)
     x.tofile(ap)
     with open(FIXM) as f, open(ap[:-3] + "meta", "w") as g:
@@ -332,7 +350,11 @@ def native_destripe(rng, ns, nbatch, workers, k_filter):
     bad = []
     d = tempfile.mkdtemp(prefix="c06_")
     try:
-        ap, x = _mk_rec(d, ns, rng)
+        ap, x = _mk_rec(d, ns, rng, nbatch=nbatch)
+        sr0 = spikeglx.Reader(ap)
+        volts = x[:, :384].astype(np.float32) * sr0.sample2volts[:384]
+        want_sat = V.saturation(volts.T, max_voltage=sr0.range_volts[:384], fs=sr0.fs)[0]          # one entry per sample, about that sample: the whole recording at once
+        sr0.close()
         outs = {}
         for w in workers:
             od = os.path.join(d, f"w{w}")
@@ -353,6 +375,9 @@ def native_destripe(rng, ns, nbatch, workers, k_filter):
                 nbat += 1
             if sat.shape != (ns,):
                 bad.append(("saturation length", w, sat.shape))
+            elif not np.array_equal(sat.astype(bool), want_sat):
+                dif = np.flatnonzero(sat.astype(bool) != want_sat)
+                bad.append(("saturation flags differ from those of the samples themselves", w, int(dif.size), dif[:5].tolist()))
             if rms.shape[0] != nbat:
                 bad.append(("rms rows", w, rms.shape[0], nbat))
             if not np.array_equal(y[:, -1], x[:, -1]):
